@@ -28,6 +28,8 @@ BAD_STATEMENTS = [
     ("bad-match-reference", {"k": "raw", "text": "match $undefined_ref.Finished()"}),
     ("bad-match-reference-none", {"k": "raw", "text": "$noref_zz = None\n@IND@match $noref_zz.Finished()"}),
     ("bad-match-reference-not-an-object", {"k": "raw", "text": "$noref_zz = 5\n@IND@match $noref_zz.Finished()"}),
+    ("bad-return-expression", {"k": "return", "expr": "1 / 0"}),
+    ("bad-return-reference", {"k": "return", "expr": "$undefined_zz.value"}),
     ("division-by-zero", {"k": "assign", "var": "$bad", "expr": "1 / 0"}),
     # errors that only fire when an event of that name arrives (match time), in shapes where the faulty flow - or a flow it
     # started - has ANOTHER head waiting for the same event: the candidate list of that event then holds several heads of
